@@ -13,8 +13,21 @@ class Gen5(M.Gen):
 
     def inner(self, depth):
         r = self.rng
-        k = r.randint(0, 11)
+        k = r.randint(0, 14)
         blk = lambda *ss: Code(*ss)
+        # an operand expression that yields NO value: a unary operator on nil only warns and pushes nothing
+        void = lambda: Un(r.choice(["str", "count"]), Var("_undef%d" % r.randint(1, 3)))
+        if k == 12:  # a called block whose own array literal is short of 1..3 operands, while the caller holds pending ones
+            m = r.randint(1, 3)
+            els = [void() for _ in range(m)] + [N(7)] * r.randint(0, 1)
+            r.shuffle(els)
+            return Un("call", blk(E(Arr(*els))))
+        if k == 13:  # the same inside other scope kinds
+            short = blk(E(Arr(void(), void())), *( [E(N(3))] if r.random() < 0.3 else [] ))
+            return r.choice([Bin("then", Un("if", B(True)), short), Bin("apply", Arr(N(1), N(2)), short),
+                             Bin("call", N(1), short), Bin("catch", Un("try", short), blk(E(N(0))))])
+        if k == 14:  # a binary / unary operator inside a called block that finds no operand in its own scope
+            return Un("call", blk(E(r.choice([Bin("+", void(), void()), Bin("+", N(1), void()), Un("count", void())]))))
         if k == 0:   # block leaving extra values, last statement an expression
             return Un("call", blk(E(Arr(N(8), N(9))), E(N(r.randint(0, 9)))))
         if k == 1:   # block ending in an assignment: yields nil
